@@ -1,7 +1,7 @@
 (* Dispatcher of the model side of the correspondence check:
    one case = a domain name and a list of generic arguments; the result is the
    canonical transcript (one string per line). *)
-Require Import Bytes Outcome Render Common TagType RunCommon.
+Require Import Bytes Outcome Render Common TagType RunCommon RunMbi RunHeader.
 From Coq Require Import String.
 Open Scope string_scope.
 
@@ -22,4 +22,16 @@ Definition run_case (pn : N) (dom : string) (args : list arg) : list string :=
   else if dom =? "fb" then
     match args with [AN x] => run_fb x | _ => bad end
   else if dom =? "magic" then run_magic
+  else if dom =? "mbiwalk" then
+    match args with [AB bs] => run_mbi_walk p bs | _ => bad end
+  else if dom =? "mbinull" then run_mbinull p
+  else if dom =? "iters" then
+    match args with [AB bs; AL ops] => run_iters p bs ops | _ => bad end
+  else if dom =? "hdrwalk" then
+    match args with [AB bs] => run_hdr_walk p bs | _ => bad end
+  else if dom =? "hdrnull" then run_hdrnull p
+  else if dom =? "find" then
+    match args with [AN a; AB bs] => run_find p a bs | _ => bad end
+  else if dom =? "cksum" then
+    match args with [AN m; AN a; AN l] => run_cksum m a l | _ => bad end
   else ["BADDOMAIN"].
